@@ -639,6 +639,84 @@ def conv_store(line, st):
 ENGINES["store"] = {"imports": "Str Store", "gen": gen_store, "conv": conv_store}
 
 
+# ------------------------------------------------------------------ engine tree (Tree.v; ocaml/tree/driver.ml)
+def gen_tree(rng, n):
+    import copy
+    import c06
+    lines = []
+    shapes = [[], [("d", b"e", [("d", b"f", [])])], [("d", b"x", [("f", b"a", b"same", 0o644)]), ("d", b"y", [("f", b"a", b"same", 0o755)])]]
+    while len(lines) < n:
+        k = rng.below(10)
+        if k < 7:
+            names = c06.NAMES + (c06.BAD_NAMES if rng.chance(1, 8) else [])
+            tree = shapes.pop() if shapes and rng.chance(1, 8) else c06.gen_tree(rng, names=names, budget=4 + rng.below(14))
+            dest = c06.perturb(rng, tree, rng.choice(c06.STATES))
+            blobs = ["T"] + sorted(set(c06.contents_of(tree)))
+            missing = rng.sample(blobs, rng.below(min(3, len(blobs)) + 1)) if rng.chance(1, 2) else []
+            lines.append("dir\t%s\t%s\t%s" % (c06.tree_field(tree, True), c06.dest_field(dest, True), c06.fault_field(missing, True)))
+        else:
+            c, md = rng.choice(c06.CONTENTS), rng.choice(c06.MODES)
+            other = bytes((b ^ 1) for b in c) if c else b"other"
+            dest = rng.choice([("A",), ("P",), ("F", c, 0o644), ("F", c, 0o755), ("F", other, rng.choice(c06.MODES)), ("D", []),
+                               ("D", [("f", b"f", b"x", 0o644)])])
+            lines.append("file\t%s\t%d\t%s\t%d" % (hx(c06.sha16(c)), 1 if md & 0o111 else 0, c06.dest_field(dest, True), rng.below(2)))
+    return lines[:n]
+
+
+def conv_tree(line, st):
+    f = line.split("\t")
+    s = lambda h: intern(st, unhx(h), 6)
+    ex = lambda m: gb(int(m, 8) & 0o111 != 0)
+
+    def entries(toks):
+        """the entries of one directory; consumes up to and including the closing 'u'"""
+        es = []
+        while toks:
+            t = toks.pop(0)
+            if t == "u":
+                break
+            x = t.split(":")
+            if x[0] == "f" and len(x) == 4:
+                es.append(gpair(s(x[1]), app("File", s(x[2]), ex(x[3]))))
+            elif x[0] == "l" and len(x) == 3:
+                es.append(gpair(s(x[1]), app("Link", s(x[2]))))
+            elif x[0] == "d" and len(x) == 2:
+                es.append(gpair(s(x[1]), app("Dir", entries(toks))))
+            else:
+                raise Unsupported("tree token the driver rejects")
+        return gl(es)
+
+    def tree(x):
+        if x == "-":
+            return "[]"
+        toks = x.split(",")
+        es = entries(toks)
+        if toks:
+            raise Unsupported("trailing tree tokens")
+        return es
+
+    def dest(x):
+        if x in ("A", "P"):
+            return {"A": "DAbsent", "P": "DParentAbsent"}[x]
+        if x == "D":
+            return app("DDir", "[]")
+        if x.startswith("D,") and len(x) > 2:
+            return app("DDir", tree(x[2:]))
+        y = x.split(":")
+        if y[0] == "F" and len(y) == 3:
+            return app("DFile", s(y[1]), ex(y[2]))
+        raise Unsupported("dest the driver rejects")
+    if f[0] == "dir" and len(f) == 4:
+        missing = [] if f[3] == "-" else [gopt(None if m == "T" else s(m)) for m in f[3].split(",")]
+        return app("CDir", app("Dir", tree(f[1])), dest(f[2]), gl(missing))
+    if f[0] == "file" and len(f) == 5:
+        return app("CFile", s(f[1]), gb(f[2] == "1"), dest(f[3]), gb(f[4] == "1"))
+    raise Unsupported(f[0])
+
+
+ENGINES["tree"] = {"imports": "Str Tree", "gen": gen_tree, "conv": conv_tree}
+
+
 # ------------------------------------------------------------------ command line
 def main(argv):
     if len(argv) < 2 or (argv[1] != "all" and argv[1] not in ENGINES):
